@@ -225,7 +225,7 @@ func TestC05(t *testing.T) {
 			shuffleDirs(si, rapid.Uint64().Draw(rt, "shuffleseed"))
 		}
 		// (the directory's own name is nobody's business: percent signs, spaces, colons)
-		target := filepath.Join(dir, rapid.SampledFrom([]string{"target", "target", "target", "100% Orange Juice", "50%", "1:x y", "a#b?c"}).Draw(rt, "targetname"))
+		target := filepath.Join(dir, rapid.SampledFrom([]string{"target", "target", "target", "100% Orange Juice", "50%", "1:x y", "a#b?c", "Game-1.2.zip", "UPPER.ZIP"}).Draw(rt, "targetname"))
 		// ... nor is the way its path is spelled (the string is handed over as it is)
 		switch rapid.IntRange(0, 6).Draw(rt, "targetspelling") {
 		case 0:
